@@ -1066,6 +1066,8 @@ type c11World struct {
 	longGaps       int
 	maxLongGaps    int
 	slotsElapsed   int64
+	rq             *rand.Rand // PRNG of the read-only queries
+	readOnP        bool
 }
 
 func c11SetGlobals(ticks int) {
@@ -1175,6 +1177,7 @@ func (w *c11World) step() {
 	if w.failed {
 		return
 	}
+	w.readStats()
 	w.syncFollower(false)
 	if w.mode == "prestart" && w.quiet == 0 && w.r.Intn(350) == 0 {
 		w.quiet = 4
@@ -1183,6 +1186,38 @@ func (w *c11World) step() {
 		w.P.Restart()
 		w.mon.stats["producer-restarts"]++
 	}
+}
+
+// readStats: read-only consensus queries, as the pillar RPC (getAll / getByName) issues them, on ONE of the two nodes.
+// Rewards are a function of the chain alone, so serving such requests must not change what a node credits later.
+// The queries use their own PRNG and never touch the history's.
+func (w *c11World) readStats() {
+	if w.rq == nil {
+		w.rq = rand.New(rand.NewSource(fw.SeedFor(w.c.Seed, "c11-reads/"+w.caseID)))
+		w.readOnP = w.rq.Intn(2) == 0
+	}
+	if w.rq.Intn(12) != 0 {
+		return
+	}
+	n := w.F
+	if w.readOnP {
+		n = w.P
+	}
+	if n == nil || (n == w.F && w.forked) {
+		return
+	}
+	defer func() { _ = recover() }()
+	pr := n.Cons.FrontierPillarReader()
+	cur := pr.EpochTicker().ToTick(*n.Frontier().Timestamp)
+	for _, e := range []uint64{cur, cur - 1, cur - 2} {
+		if e > cur {
+			continue
+		}
+		_, _ = pr.EpochStats(e)
+		_, _ = pr.GetPillarDelegationsByEpoch(e)
+	}
+	_, _ = pr.GetPillarWeights()
+	w.mon.stats["read-only-stat-queries"]++
 }
 
 func (w *c11World) produce() {
